@@ -515,6 +515,7 @@ def main(modname: str, argv: list[str]) -> int:
     ap.add_argument("--no-shrink", action="store_true")
     a = ap.parse_args(argv)
     tier = a.tier if a.tier in ("quick", "thorough") else "quick"
+    os.environ["VERIF_TIER"] = tier  # (generators thin out their most expensive size class in the thorough tier)
     _limit_memory("VERIF_MAIN_MEM_GB", "6")
     seed = int(os.environ.get("VERIF_SEED", "1") or 1)
     t0 = time.time()
